@@ -83,6 +83,9 @@ func init() {
 			}
 			for gh := lo; gh <= 20; gh++ {
 				for gl := gh; gl <= 20; gl++ {
+					if gl == 0 {
+						continue // (0, 0) in the polygon file means "no groundwater given"
+					}
 					for _, ph := range []int{0, 80, 180, 300} {
 						out = append(out, c20Spec{Kind: "sinus", GH: gh, GL: gl, Phase: ph})
 					}
